@@ -15,6 +15,7 @@
 package ggql
 
 import (
+	"math"
 	"strconv"
 )
 
@@ -63,8 +64,14 @@ func (t *int64Scalar) CoerceOut(v interface{}) (interface{}, error) {
 	case nil:
 	// remains nil
 	case float32:
+		if !(math.MinInt64 <= tv && tv < -math.MinInt64) { // also false for NaN
+			return nil, newCoerceErr(v, "Int64")
+		}
 		v = int64(tv)
 	case float64:
+		if !(math.MinInt64 <= tv && tv < -math.MinInt64) { // also false for NaN
+			return nil, newCoerceErr(v, "Int64")
+		}
 		v = int64(tv)
 	case int:
 		v = int64(tv)
@@ -77,6 +84,9 @@ func (t *int64Scalar) CoerceOut(v interface{}) (interface{}, error) {
 	case int64:
 		// ok as is
 	case uint:
+		if math.MaxInt64 < tv {
+			return nil, newCoerceErr(v, "Int64")
+		}
 		v = int64(tv)
 	case uint8:
 		v = int64(tv)
@@ -85,6 +95,9 @@ func (t *int64Scalar) CoerceOut(v interface{}) (interface{}, error) {
 	case uint32:
 		v = int64(tv)
 	case uint64:
+		if math.MaxInt64 < tv {
+			return nil, newCoerceErr(v, "Int64")
+		}
 		v = int64(tv)
 	case string:
 		var i int64
